@@ -742,7 +742,12 @@ func domRfl(r *gen.Rng, n int, thorough bool, o *Out) {
 		}
 	}
 	// Set / Delete on reflected structs and maps at any depth (dom_rset.go)
-	for i := 0; i < 2*n; i++ {
+	// (every case builds fresh struct types, which reflect keeps for ever: the count is capped)
+	nset := 2 * n
+	if nset > 6000 {
+		nset = 6000 + (n-3000)/10
+	}
+	for i := 0; i < nset; i++ {
 		rsetCase(o, g, r.Fork(uint64(9_000_000+i)))
 	}
 	// the generic map interface on every map representation: Set then Delete, against the model
